@@ -356,6 +356,8 @@ impl Exec {
             }
             _ => return,
         }
+        // the caller holds `&mut` to the group: it is the consumer task itself and polls again
+        self.needs_poll = true;
         self.view();
     }
 }
